@@ -222,4 +222,508 @@ theorem leadLoop_zeros (ws : Array (BitVec w)) (len : Nat) (i : Nat) :
     · simp only [hv, if_false]
       exact h1 hv
 
+theorem cap_of_zero (hw : 0 < w) : capFromBitLen w 0 = 0 := by
+  unfold capFromBitLen
+  exact Nat.div_eq_of_lt (by omega)
+
+theorem Raw.leadingZeros_unfold (s : Raw w) (hw : 0 < w) (h : 0 < s.length) :
+    s.leadingZeros =
+      Raw.leadLoop s.data 0#w clz (wd s.data ((s.length - 1) / w) &&& mask w ((s.length - 1) % w + 1))
+        ((s.length - 1) / w)
+        (clz (wd s.data ((s.length - 1) / w) &&& mask w ((s.length - 1) % w + 1)) - (w - ((s.length - 1) % w + 1))) := by
+  unfold Raw.leadingZeros
+  simp only [(cap_facts hw s.length h).1, Nat.add_sub_cancel, gt_iff_lt, Nat.succ_pos, if_true]
+
+theorem Raw.leadingZeros_len0 (s : Raw w) (hw : 0 < w) (h : s.length = 0) : s.leadingZeros = 0 := by
+  unfold Raw.leadingZeros
+  simp [h, cap_of_zero hw]
+
+/-- Theorem A: `leadingZeros` counts the leading zeros of the bits below `length` (no invariant needed:
+the code masks the last word and never reads further) -/
+theorem Raw.leadingZeros_sig (s : Raw w) (hw : 0 < w) :
+    s.leadingZeros ≤ s.length ∧ IsSig (lowBits s.data s.length) (s.length - s.leadingZeros) := by
+  by_cases h : 0 < s.length
+  · rw [Raw.leadingZeros_unfold s hw h]
+    obtain ⟨_, hlen⟩ := cap_facts hw s.length h
+    have hmod := Nat.mod_lt (s.length - 1) hw
+    generalize hq : (s.length - 1) / w = q at *
+    generalize hlb : (s.length - 1) % w + 1 = lb at *
+    generalize hv : wd s.data q &&& mask w lb = v
+    have hms : w * (q + 1) = w * q + w := Nat.mul_succ w q
+    have hx : ∀ k, k < w → lowBits s.data s.length (w * q + k) = v.getLsbD k := by
+      intro k hk
+      unfold lowBits
+      rw [bitAt_mul_add _ q k hk, ← hv, BitVec.getLsbD_and, getLsbD_mask, Bool.and_comm]
+      congr 1
+      by_cases hkl : k < lb
+      · have : w * q + k < s.length := by omega
+        simp [this, hkl, hk]
+      · have : ¬ w * q + k < s.length := by omega
+        simp [this, hkl]
+    have hz : ∀ j, w * (q + 1) ≤ j → lowBits s.data s.length j = false := by
+      intro j hj
+      unfold lowBits
+      have : ¬ j < s.length := by omega
+      simp [this]
+    obtain ⟨w0, w1⟩ := sig_word (lowBits s.data s.length) v q hx hz
+    have hvb : BV.natBits v.toNat ≤ lb := by
+      rw [BV.natBits_le_iff]
+      apply Nat.lt_pow_two_of_testBit
+      intro j hj
+      rw [← getLsbD_eq_testBit, ← hv, BitVec.getLsbD_and, getLsbD_mask]
+      have : ¬ j < lb := by omega
+      simp [this]
+    apply leadLoop_zeros
+    · intro hv0
+      rw [hv0, clz_zero]
+      exact ⟨by omega, w0 hv0⟩
+    · intro hv0
+      have : s.length - (clz v - (w - lb)) = w * q + BV.natBits v.toNat := by
+        unfold clz; omega
+      rw [this]
+      exact ⟨by unfold clz; omega, w1 hv0⟩
+  · have h0 : s.length = 0 := by omega
+    rw [Raw.leadingZeros_len0 s hw h0, h0]
+    refine ⟨Nat.le_refl _, fun j _ => ?_, Or.inl rfl⟩
+    simp [lowBits]
+
+theorem lowBits_eq_testBit (s : Raw w) (hw : 0 < w) (h : s.Inv) (j : Nat) :
+    lowBits s.data s.length j = s.abs.val.testBit j := by
+  have := Raw.abs_bit s j hw
+  unfold BV.bit at this
+  rw [this]
+  unfold lowBits
+  by_cases hj : j < s.length
+  · simp [hj]
+  · rw [h.2 j (by omega)]; simp
+
+/-- the significant-bit count computed by the code is that of the abstract value -/
+theorem Raw.sigBits_eq (s : Raw w) (hw : 0 < w) (h : s.Inv) : s.sigBits = s.abs.sig := by
+  obtain ⟨_, hs⟩ := Raw.leadingZeros_sig s hw
+  unfold Raw.sigBits BV.sig
+  exact (hs.congr (lowBits_eq_testBit s hw h)).unique (BV.natBits_isSig _)
+
+theorem Raw.leadingZeros_eq (s : Raw w) (hw : 0 < w) (h : s.Inv) :
+    s.leadingZeros = s.abs.leadingZeros := by
+  have h1 := Raw.sigBits_eq s hw h
+  have h2 := (Raw.leadingZeros_sig s hw).1
+  unfold Raw.sigBits at h1
+  unfold BV.leadingZeros
+  rw [← h1, Raw.abs_len]
+  omega
+
+-- ---- complemented storage ---------------------------------------------------------------------------------
+
+/-- every word complemented -/
+def notArr (ws : Array (BitVec w)) : Array (BitVec w) := ws.map (~~~ ·)
+
+theorem size_notArr (ws : Array (BitVec w)) : (notArr ws).size = ws.size := by simp [notArr]
+
+theorem wd_notArr (ws : Array (BitVec w)) (i : Nat) (h : i < ws.size) : wd (notArr ws) i = ~~~ wd ws i := by
+  unfold wd notArr
+  simp [Array.getD_eq_getD_getElem?, Array.getElem?_map, Array.getElem?_eq_getElem h]
+
+theorem bitAt_notArr (ws : Array (BitVec w)) (j : Nat) (hw : 0 < w) (h : j < ws.size * w) :
+    bitAt (notArr ws) j = !bitAt ws j := by
+  have hd : j / w < ws.size := div_lt_of_lt_mul j ws.size hw h
+  have hm := Nat.mod_lt j hw
+  unfold bitAt
+  rw [wd_notArr ws _ hd, BitVec.getLsbD_not]
+  simp [hm]
+
+theorem eq_allOnes_iff (v : BitVec w) : (v = BitVec.allOnes w) ↔ (~~~v = 0#w) := by
+  constructor
+  · intro h; rw [h]; simp
+  · intro h; have := congrArg (~~~ ·) h; simpa using this
+
+theorem leadLoop_not (ws : Array (BitVec w)) (i : Nat) :
+    ∀ (v : BitVec w) (count : Nat), i ≤ ws.size →
+      Raw.leadLoop ws (BitVec.allOnes w) clo v i count = Raw.leadLoop (notArr ws) 0#w clz (~~~v) i count := by
+  induction i with
+  | zero => intro v count _; simp [Raw.leadLoop]
+  | succ i ih =>
+    intro v count hi
+    simp only [Raw.leadLoop]
+    by_cases hv : v = BitVec.allOnes w
+    · subst hv
+      simp only [BitVec.not_allOnes, if_true]
+      rw [ih _ _ (by omega), wd_notArr ws i (by omega)]
+      rfl
+    · have hv' : ¬ (~~~v = 0#w) := fun h => hv ((eq_allOnes_iff v).mpr h)
+      simp only [hv, hv', if_false]
+
+/-- `leadingOnes` is `leadingZeros` of the complemented storage -/
+theorem Raw.leadingOnes_eq_not (s : Raw w) (hw : 0 < w) (hcap : s.length ≤ s.data.size * w) :
+    s.leadingOnes = Raw.leadingZeros ⟨notArr s.data, s.length⟩ := by
+  by_cases h : 0 < s.length
+  · rw [Raw.leadingZeros_unfold ⟨notArr s.data, s.length⟩ hw h]
+    unfold Raw.leadingOnes
+    simp only [(cap_facts hw s.length h).1, Nat.add_sub_cancel, gt_iff_lt, Nat.succ_pos, if_true]
+    have hq : (s.length - 1) / w < s.data.size := div_lt_of_lt_mul _ _ hw (by omega)
+    rw [leadLoop_not _ _ _ _ (by omega), wd_notArr _ _ hq]
+    simp only [clo, BitVec.not_or, BitVec.not_not]
+  · have h0 : s.length = 0 := by omega
+    rw [Raw.leadingZeros_len0 ⟨notArr s.data, s.length⟩ hw h0]
+    unfold Raw.leadingOnes
+    simp [h0, cap_of_zero hw]
+
+theorem not_val_testBit (a : BV) (h : a.WF) (j : Nat) :
+    a.not.val.testBit j = (decide (j < a.len) && !a.val.testBit j) := by
+  unfold BV.not
+  simp only
+  have : 2 ^ a.len - 1 - a.val = 2 ^ a.len - (a.val + 1) := by omega
+  rw [this, Nat.testBit_two_pow_sub_succ h]
+
+theorem lowBits_notArr (s : Raw w) (hw : 0 < w) (h : s.Inv) (j : Nat) :
+    lowBits (notArr s.data) s.length j = s.abs.not.val.testBit j := by
+  rw [not_val_testBit _ (h.wf hw)]
+  have := Raw.abs_bit s j hw
+  unfold BV.bit at this
+  rw [this, Raw.abs_len]
+  unfold lowBits
+  by_cases hj : j < s.length
+  · rw [bitAt_notArr _ _ hw (by have := h.1; omega)]
+  · simp [hj]
+
+theorem Raw.leadingOnes_eq (s : Raw w) (hw : 0 < w) (h : s.Inv) :
+    s.leadingOnes = s.abs.leadingOnes := by
+  rw [Raw.leadingOnes_eq_not s hw h.1]
+  obtain ⟨h2, hs⟩ := Raw.leadingZeros_sig ⟨notArr s.data, s.length⟩ hw
+  simp only at h2 hs
+  have h1 := (hs.congr (lowBits_notArr s hw h)).unique (BV.natBits_isSig _)
+  unfold BV.leadingOnes BV.leadingZeros BV.sig
+  rw [← h1]
+  show _ = s.length - _
+  omega
+
+-- ---- trailing counts ---------------------------------------------------------------------------------------
+
+theorem IsTz.mono {f : Nat → Bool} {n n' t : Nat} (h : IsTz f n t) (ht : t < n) (hn : n ≤ n') : IsTz f n' t :=
+  ⟨by omega, h.2.1, fun _ => h.2.2 ht⟩
+
+/-- how a word `x` at word index `i` determines the trailing-zero count of a bit function `f` that vanishes
+below that word, when only the first `m` bits of the word count -/
+theorem tz_word (f : Nat → Bool) (x : BitVec w) (i m : Nat) (hm : m ≤ w)
+    (hx : ∀ k, k < w → f (w * i + k) = x.getLsbD k) (hz : ∀ j, j < w * i → f j = false) :
+    IsTz f (w * i + m) (w * i + min (ctz x) m) := by
+  obtain ⟨c0, c1, c2⟩ := ctz_isTz x
+  refine ⟨by omega, fun j hj => ?_, fun ht => ?_⟩
+  · by_cases hlo : j < w * i
+    · exact hz j hlo
+    · have : j = w * i + (j - w * i) := by omega
+      rw [this, hx _ (by omega)]
+      exact c1 _ (by omega)
+  · have hc : ctz x < m := by omega
+    have : min (ctz x) m = ctz x := by omega
+    rw [this, hx _ (by omega)]
+    exact c2 (by omega)
+
+/-- what the callers do with the result of `trailLoop` -/
+def trailFinal (ws : Array (BitVec w)) (stop : BitVec w) (cnt : BitVec w → Nat) (lb : Nat)
+    (r : BitVec w × Nat × Nat) : Nat :=
+  if r.1 = stop then r.2.2 + min (cnt (wd ws r.2.1)) lb else r.2.2
+
+theorem trailLoop_zeros (ws : Array (BitVec w)) (len last lb : Nat)
+    (hlen : len = w * last + lb) (hlb : lb ≤ w) (v : BitVec w) (i count : Nat) :
+    i ≤ last →
+    (v = 0#w → count = w * i ∧ ∀ j, j < w * i → bitAt ws j = false) →
+    (v ≠ 0#w → IsTz (bitAt ws) len count) →
+    IsTz (bitAt ws) len (trailFinal ws 0#w ctz lb (Raw.trailLoop ws 0#w ctz last v i count)) := by
+  fun_induction Raw.trailLoop ws 0#w ctz last v i count with
+  | case1 v i count hc v' ih =>
+    intro hi h0 _
+    obtain ⟨hv, hil⟩ := hc
+    obtain ⟨hcnt, hz⟩ := h0 hv
+    have hms : w * (i + 1) = w * i + w := Nat.mul_succ w i
+    have hml : w * (i + 1) ≤ w * last := Nat.mul_le_mul_left w hil
+    have hx : ∀ k, k < w → bitAt ws (w * i + k) = v'.getLsbD k := fun k hk => bitAt_mul_add ws i k hk
+    have key := tz_word (bitAt ws) v' i w (Nat.le_refl _) hx hz
+    have hmin : min (ctz v') w = ctz v' := by have := (ctz_isTz v').1; omega
+    rw [hmin] at key
+    apply ih (by omega)
+    · intro hv'
+      rw [hv', ctz_zero] at key ⊢
+      exact ⟨by omega, fun j hj => key.2.1 j (by omega)⟩
+    · intro hv'
+      have := ctz_lt hv'
+      rw [hcnt]
+      exact key.mono (by omega) (by omega)
+  | case2 v i count hc =>
+    intro hi h0 h1
+    unfold trailFinal
+    by_cases hv : v = 0#w
+    · simp only [hv, if_true]
+      obtain ⟨hcnt, hz⟩ := h0 hv
+      have hil : i = last := by
+        have : ¬ i < last := fun h => hc ⟨hv, h⟩
+        omega
+      subst hil
+      rw [hcnt, hlen]
+      exact tz_word (bitAt ws) (wd ws i) i lb hlb (fun k hk => bitAt_mul_add ws i k hk) hz
+    · simp only [hv, if_false]
+      exact h1 hv
+
+theorem Raw.trailingZeros_unfold (s : Raw w) (hw : 0 < w) (h : 0 < s.length) :
+    s.trailingZeros =
+      trailFinal s.data 0#w ctz ((s.length - 1) % w + 1)
+        (Raw.trailLoop s.data 0#w ctz ((s.length - 1) / w) 0#w 0 0) := by
+  unfold Raw.trailingZeros trailFinal
+  simp only [(cap_facts hw s.length h).1, Nat.add_sub_cancel, Nat.succ_pos, if_true]
+
+theorem Raw.trailingZeros_len0 (s : Raw w) (hw : 0 < w) (h : s.length = 0) : s.trailingZeros = 0 := by
+  unfold Raw.trailingZeros
+  simp [h, cap_of_zero hw]
+
+/-- Theorem B: `trailingZeros` counts the trailing zeros of the storage bits, capped at `length`
+(no invariant needed) -/
+theorem Raw.trailingZeros_isTz (s : Raw w) (hw : 0 < w) :
+    IsTz (bitAt s.data) s.length s.trailingZeros := by
+  by_cases h : 0 < s.length
+  · rw [Raw.trailingZeros_unfold s hw h]
+    have hmod := Nat.mod_lt (s.length - 1) hw
+    apply trailLoop_zeros s.data s.length _ _ (cap_facts hw s.length h).2 (by omega) 0#w 0 0 (Nat.zero_le _)
+    · intro _
+      exact ⟨by omega, fun j hj => by omega⟩
+    · intro h; exact absurd rfl h
+  · have h0 : s.length = 0 := by omega
+    rw [Raw.trailingZeros_len0 s hw h0, h0]
+    exact ⟨Nat.le_refl _, fun j hj => by omega, fun h => by omega⟩
+
+theorem Raw.trailingZeros_eq' (s : Raw w) (hw : 0 < w) : s.trailingZeros = s.abs.trailingZeros := by
+  have h1 := Raw.trailingZeros_isTz s hw
+  have h2 : IsTz (bitAt s.data) s.length (BV.natTz s.abs.len s.abs.val) :=
+    (BV.natTz_isTz s.abs.len s.abs.val).congr (fun j _ => Raw.abs_bit s j hw)
+  exact h1.unique h2
+
+theorem Raw.trailingZeros_eq (s : Raw w) (hw : 0 < w) (_h : s.Inv) :
+    s.trailingZeros = s.abs.trailingZeros := Raw.trailingZeros_eq' s hw
+
+theorem trailLoop_step (ws : Array (BitVec w)) (stop : BitVec w) (cnt : BitVec w → Nat) (last : Nat)
+    (v : BitVec w) (i count : Nat) (h : v = stop ∧ i < last) :
+    Raw.trailLoop ws stop cnt last v i count =
+      Raw.trailLoop ws stop cnt last (wd ws i) (i + 1) (count + cnt (wd ws i)) := by
+  rw [Raw.trailLoop]; simp only [h, and_self, dif_pos]
+
+theorem trailLoop_stop (ws : Array (BitVec w)) (stop : BitVec w) (cnt : BitVec w → Nat) (last : Nat)
+    (v : BitVec w) (i count : Nat) (h : ¬ (v = stop ∧ i < last)) :
+    Raw.trailLoop ws stop cnt last v i count = (v, i, count) := by
+  rw [Raw.trailLoop]; simp only [h, dif_neg, not_false_eq_true]
+
+theorem trailLoop_not (ws : Array (BitVec w)) (last lb : Nat) (hl : last < ws.size) (v : BitVec w) (i count : Nat) :
+    i ≤ last →
+    trailFinal ws (BitVec.allOnes w) cto lb (Raw.trailLoop ws (BitVec.allOnes w) cto last v i count) =
+      trailFinal (notArr ws) 0#w ctz lb (Raw.trailLoop (notArr ws) 0#w ctz last (~~~v) i count) := by
+  fun_induction Raw.trailLoop ws (BitVec.allOnes w) cto last v i count with
+  | case1 v i count hc v' ih =>
+    intro hi
+    have hc' : ~~~v = 0#w ∧ i < last := ⟨(eq_allOnes_iff v).mp hc.1, hc.2⟩
+    rw [trailLoop_step (notArr ws) 0#w ctz last (~~~v) i count hc', wd_notArr ws i (by omega)]
+    exact ih (by omega)
+  | case2 v i count hc =>
+    intro hi
+    have hc' : ¬ (~~~v = 0#w ∧ i < last) := fun h => hc ⟨(eq_allOnes_iff v).mpr h.1, h.2⟩
+    rw [trailLoop_stop (notArr ws) 0#w ctz last (~~~v) i count hc']
+    unfold trailFinal
+    simp only [eq_allOnes_iff v, wd_notArr ws i (by omega)]
+    rfl
+
+/-- `trailingOnes` is `trailingZeros` of the complemented storage -/
+theorem Raw.trailingOnes_eq_not (s : Raw w) (hw : 0 < w) (hcap : s.length ≤ s.data.size * w) :
+    s.trailingOnes = Raw.trailingZeros ⟨notArr s.data, s.length⟩ := by
+  by_cases h : 0 < s.length
+  · rw [Raw.trailingZeros_unfold ⟨notArr s.data, s.length⟩ hw h]
+    have hq : (s.length - 1) / w < s.data.size := div_lt_of_lt_mul _ _ hw (by omega)
+    have := trailLoop_not s.data ((s.length - 1) / w) ((s.length - 1) % w + 1) hq (BitVec.allOnes w) 0 0
+      (Nat.zero_le _)
+    rw [BitVec.not_allOnes] at this
+    rw [← this]
+    unfold Raw.trailingOnes trailFinal
+    simp only [(cap_facts hw s.length h).1, Nat.add_sub_cancel, Nat.succ_pos, if_true]
+  · have h0 : s.length = 0 := by omega
+    rw [Raw.trailingZeros_len0 ⟨notArr s.data, s.length⟩ hw h0]
+    unfold Raw.trailingOnes
+    simp [h0, cap_of_zero hw]
+
+theorem Raw.trailingOnes_eq (s : Raw w) (hw : 0 < w) (h : s.Inv) :
+    s.trailingOnes = s.abs.trailingOnes := by
+  rw [Raw.trailingOnes_eq_not s hw h.1]
+  have h1 := Raw.trailingZeros_isTz ⟨notArr s.data, s.length⟩ hw
+  simp only at h1
+  have h2 : IsTz (bitAt (notArr s.data)) s.length (BV.natTz s.abs.not.len s.abs.not.val) := by
+    apply (BV.natTz_isTz s.abs.not.len s.abs.not.val).congr
+    intro j hj
+    have hj' : j < s.length := hj
+    rw [← lowBits_notArr s hw h j]
+    simp [lowBits, hj']
+  exact h1.unique h2
+
+-- ---- isZero ---------------------------------------------------------------------------------------------------
+
+theorem toNat_eq_zero_iff (x : BitVec w) : x.toNat = 0 ↔ x = 0#w := by
+  constructor
+  · intro h; apply BitVec.eq_of_toNat_eq; simpa using h
+  · intro h; rw [h]; simp
+
+theorem valUpTo_eq_zero_iff (ws : Array (BitVec w)) (n : Nat) :
+    valUpTo ws n = 0 ↔ ∀ i, i < n → wd ws i = 0#w := by
+  induction n with
+  | zero => simp [valUpTo]
+  | succ n ih =>
+    simp only [valUpTo, Nat.add_eq_zero_iff, Nat.mul_eq_zero, ih, toNat_eq_zero_iff]
+    have hp : ¬ (2 ^ (w * n) = 0) := Nat.ne_of_gt (Nat.two_pow_pos _)
+    constructor
+    · rintro ⟨h1, h2 | h2⟩ i hi
+      · exact absurd h2 hp
+      · by_cases hin : i < n
+        · exact h1 i hin
+        · have : i = n := by omega
+          rw [this]; exact h2
+    · intro h
+      exact ⟨fun i hi => h i (by omega), Or.inr (h n (by omega))⟩
+
+theorem wd_oob (ws : Array (BitVec w)) (i : Nat) (h : ws.size ≤ i) : wd ws i = 0#w := by
+  unfold wd
+  simp [Array.getD_eq_getD_getElem?, Array.getElem?_eq_none h]
+
+theorem wd_inb (ws : Array (BitVec w)) (i : Nat) (h : i < ws.size) : wd ws i = ws[i] := by
+  unfold wd
+  simp [Array.getD_eq_getD_getElem?, Array.getElem?_eq_getElem h]
+
+/-- `Bvf::is_zero` (all `N` words are zero); holds without the invariant, `abs` reads all storage -/
+theorem Bvf.isZero_eq' (s : Raw w) : Bvf.isZero s = s.abs.isZero := by
+  rw [Bool.eq_iff_iff]
+  unfold Bvf.isZero BV.isZero Raw.abs valAll
+  simp only [Array.all_eq_true, beq_iff_eq, valUpTo_eq_zero_iff]
+  constructor
+  · intro h i hi; rw [wd_inb _ _ hi]; exact h i hi
+  · intro h i hi; rw [← wd_inb _ _ hi]; exact h i hi
+
+theorem Bvf.isZero_eq (s : Raw w) (_hw : 0 < w) (_h : s.Inv) : Bvf.isZero s = s.abs.isZero :=
+  Bvf.isZero_eq' s
+
+/-- `Bvd::is_zero` looks at the used words only; the invariant says the others are zero -/
+theorem Bvd.isZero_eq (s : Raw 64) (h : s.Inv) : Bvd.isZero s = s.abs.isZero := by
+  rw [Bool.eq_iff_iff]
+  unfold Bvd.isZero BV.isZero Raw.abs valAll
+  simp only [List.all_eq_true, List.mem_range, beq_iff_eq, valUpTo_eq_zero_iff]
+  have hcap : s.length ≤ 64 * Bvd.capW s.length := by
+    unfold Bvd.capW capFromBitLen; omega
+  constructor
+  · intro hz i _
+    by_cases hi : i < Bvd.capW s.length
+    · exact hz i hi
+    · apply BitVec.eq_of_getLsbD_eq
+      intro k hk
+      rw [← bitAt_mul_add s.data i k hk, h.2 _ (by omega)]
+      simp
+  · intro hz i _
+    by_cases hi : i < s.data.size
+    · exact hz i hi
+    · exact wd_oob _ _ (by omega)
+
+-- ---- spec-level facts ------------------------------------------------------------------------------------------
+
+theorem BV.sig_le_len (a : BV) (h : a.WF) : a.sig ≤ a.len := (BV.natBits_le_iff _ _).mpr h
+
+theorem BV.leadingZeros_add_sig (a : BV) (h : a.WF) : a.leadingZeros + a.sig = a.len := by
+  have := BV.sig_le_len a h
+  unfold BV.leadingZeros; omega
+
+theorem BV.leadingZeros_le_len (a : BV) : a.leadingZeros ≤ a.len := by
+  unfold BV.leadingZeros; omega
+
+theorem BV.trailingZeros_le_len (a : BV) : a.trailingZeros ≤ a.len := (BV.natTz_isTz a.len a.val).1
+
+theorem BV.leadingOnes_le_len (a : BV) : a.leadingOnes ≤ a.len := BV.leadingZeros_le_len a.not
+
+theorem BV.trailingOnes_le_len (a : BV) : a.trailingOnes ≤ a.len := BV.trailingZeros_le_len a.not
+
+theorem BV.isZero_iff_sig (a : BV) : a.isZero = true ↔ a.sig = 0 := by
+  unfold BV.isZero BV.sig
+  rw [BV.natBits_eq_zero_iff, beq_iff_eq]
+
+theorem BV.zeros_leadingZeros (n : Nat) : (BV.zeros n).leadingZeros = n := by
+  simp [BV.leadingZeros, BV.sig, BV.zeros, BV.natBits_zero]
+
+theorem BV.zeros_trailingZeros (n : Nat) : (BV.zeros n).trailingZeros = n := by
+  simp [BV.trailingZeros, BV.zeros, BV.natTz_zero]
+
+/-- the top significant bit is set … -/
+theorem BV.sig_top (a : BV) : a.sig = 0 ∨ a.bit (a.sig - 1) = true := (BV.natBits_isSig a.val).2
+
+/-- … and everything from `sig` upwards is clear -/
+theorem BV.bit_of_sig_le (a : BV) (i : Nat) (h : a.sig ≤ i) : a.bit i = false :=
+  (BV.natBits_isSig a.val).1 i h
+
+/-- `sig` is the only number with these two properties -/
+theorem BV.sig_unique (a : BV) (m : Nat) (h1 : ∀ i, m ≤ i → a.bit i = false)
+    (h2 : m = 0 ∨ a.bit (m - 1) = true) : a.sig = m :=
+  (BV.natBits_isSig a.val).unique ⟨h1, h2⟩
+
+theorem BV.bit_of_lt_trailingZeros (a : BV) (i : Nat) (h : i < a.trailingZeros) : a.bit i = false :=
+  (BV.natTz_isTz a.len a.val).2.1 i h
+
+theorem BV.bit_trailingZeros (a : BV) (h : a.trailingZeros < a.len) : a.bit a.trailingZeros = true :=
+  (BV.natTz_isTz a.len a.val).2.2 h
+
+theorem BV.trailingZeros_unique (a : BV) (t : Nat) (h0 : t ≤ a.len) (h1 : ∀ i, i < t → a.bit i = false)
+    (h2 : t < a.len → a.bit t = true) : a.trailingZeros = t :=
+  (BV.natTz_isTz a.len a.val).unique ⟨h0, h1, h2⟩
+
+/-- meaning of `leadingZeros` in bits (well-formed `a`) -/
+theorem BV.bit_of_leadingZeros (a : BV) (h : a.WF) :
+    (∀ i, a.len - a.leadingZeros ≤ i → a.bit i = false) ∧
+    (a.leadingZeros < a.len → a.bit (a.len - a.leadingZeros - 1) = true) := by
+  have e := BV.leadingZeros_add_sig a h
+  have e' : a.len - a.leadingZeros = a.sig := by omega
+  rw [e']
+  refine ⟨BV.bit_of_sig_le a, fun hlt => ?_⟩
+  rcases BV.sig_top a with h0 | h1
+  · omega
+  · exact h1
+
+theorem BV.not_wf (a : BV) : a.not.WF := by
+  unfold BV.WF BV.not
+  have := Nat.two_pow_pos a.len
+  simp only; omega
+
+theorem BV.not_bit (a : BV) (h : a.WF) (i : Nat) : a.not.bit i = (decide (i < a.len) && !a.bit i) :=
+  not_val_testBit a h i
+
+/-- meaning of `trailingOnes` in bits -/
+theorem BV.bit_of_trailingOnes (a : BV) (h : a.WF) :
+    (∀ i, i < a.trailingOnes → a.bit i = true) ∧
+    (a.trailingOnes < a.len → a.bit a.trailingOnes = false) := by
+  have hle := BV.trailingOnes_le_len a
+  constructor
+  · intro i hi
+    have := BV.bit_of_lt_trailingZeros a.not i hi
+    rw [BV.not_bit a h] at this
+    have hl : i < a.len := by omega
+    simpa [hl] using this
+  · intro hlt
+    have := BV.bit_trailingZeros a.not hlt
+    rw [BV.not_bit a h] at this
+    have hl : a.not.trailingZeros < a.len := hlt
+    simp only [hl, decide_true, Bool.true_and, Bool.not_eq_true'] at this
+    exact this
+
+/-- meaning of `leadingOnes` in bits -/
+theorem BV.bit_of_leadingOnes (a : BV) (h : a.WF) :
+    (∀ i, a.len - a.leadingOnes ≤ i → i < a.len → a.bit i = true) ∧
+    (a.leadingOnes < a.len → a.bit (a.len - a.leadingOnes - 1) = false) := by
+  obtain ⟨h1, h2⟩ := BV.bit_of_leadingZeros a.not (BV.not_wf a)
+  constructor
+  · intro i hi hl
+    have := h1 i hi
+    rw [BV.not_bit a h] at this
+    simpa [hl] using this
+  · intro hlt
+    have := h2 hlt
+    rw [BV.not_bit a h] at this
+    have hl : a.len - a.leadingOnes - 1 < a.len := by omega
+    have hl' : a.not.len - a.not.leadingZeros - 1 < a.len := hl
+    simp only [hl', decide_true, Bool.true_and, Bool.not_eq_true'] at this
+    exact this
+
 end Bva
